@@ -105,67 +105,67 @@ Definition len {A} (l : list A) : N := N.of_nat (length l).
 
 (** ** Layer 1: decision functions over verifier outcomes *)
 
-(** RPCReadSector, rpc.go:467-508. [written] is what reached the caller's writer. *)
+(** RPCReadSector, rpc.go:469-511. [written] is what reached the caller's writer. *)
 Definition read_decide (auth : bool) (egress offset length : N) (dec : bool) (datalen avail : N)
     (proof_ok : bool) : result (N * N) :=
-  if negb auth then Err                                     (* 476 req.Validate: prices, token *)
+  if negb auth then Err                                     (* 477 req.Validate: prices, token *)
   else if length =? 0 then Err                              (* validation.go:49 *)
   else if (sector_size <? offset) || (sector_size - offset <? length) then Err
   else if negb ((offset + length) mod leaf_size =? 0) then Err
-  else if negb dec then Err                                 (* 491 ReadResponse *)
-  else if negb (datalen =? length) then Err                 (* 493 fix def394a *)
-  else if avail <? datalen then Err                         (* 500-503 read error / short read *)
-  else if negb (datalen mod leaf_size =? 0) then Err        (* 500 ReaderRoot: not a multiple of leaves *)
-  else if negb proof_ok then Err                            (* 504 rpv.Verify *)
+  else if negb dec then Err                                 (* 492 ReadResponse *)
+  else if negb (datalen =? length) then Err                 (* 494 fix def394a *)
+  else if avail <? datalen then Err                         (* 501-504 read error / short read *)
+  else if negb (datalen mod leaf_size =? 0) then Err        (* 501 ReaderRoot: not a multiple of leaves *)
+  else if negb proof_ok then Err                            (* 505 rpv.Verify *)
   else Ok (datalen, read_cost egress length).
 
-(** RPCWriteSector, rpc.go:511-568 *)
+(** RPCWriteSector, rpc.go:514-568 *)
 Definition write_decide (auth : bool) (storage ingress length : N) (dec root_eq : bool) : result usage :=
-  if length =? 0 then Err                                   (* 512 *)
-  else if sector_size <? length then Err                    (* 514 *)
-  else if negb auth then Err                                (* 523 req.Validate *)
+  if length =? 0 then Err                                   (* 515 *)
+  else if sector_size <? length then Err                    (* 517 *)
+  else if negb auth then Err                                (* 526 req.Validate *)
   else if negb (length mod leaf_size =? 0) then Err         (* validation.go:67 *)
-  else if negb dec then Err                                 (* 556 *)
-  else if negb root_eq then Err                             (* 558 resp.Root != root *)
+  else if negb dec then Err                                 (* 558 *)
+  else if negb root_eq then Err                             (* 560 resp.Root != root *)
   else Ok (write_usage storage ingress length).
 
-(** RPCVerifySector, rpc.go:571-590 *)
+(** RPCVerifySector, rpc.go:571-589 *)
 Definition verify_decide (egress : N) (dec proof_ok : bool) : result N :=
   if negb dec then Err else if negb proof_ok then Err (* 582 VerifyLeafProof *) else Ok (verify_cost egress).
 
-(** RPCSectorRoots, rpc.go:1006-1050 *)
+(** RPCSectorRoots, rpc.go:1010-1051 *)
 Definition roots_decide {R} (v : view R) (p : prices) (auth : bool) (offset length : N)
     (dec : bool) (nroots : N) (proof_ok : bool) (sig_ok : view R → bool) : result (view R * usage) :=
-  match revise_roots v p length with                       (* 1007 *)
+  match revise_roots v p length with                       (* 1011 ReviseForSectorRoots *)
   | None => Err
   | Some (v', u) =>
-    if negb auth then Err                                   (* 1022 req.Validate: prices *)
+    if negb auth then Err                                   (* 1026 req.Validate: prices *)
     else if length =? 0 then Err
     else let n := v_filesize v' / sector_size in
       if (n <? offset) || (n - offset <? length) then Err
       else if max_sector_batch <? length then Err
-      else if negb dec then Err                             (* 1028 *)
-      else if negb (nroots =? length) then Err              (* 1030 fix 84b7403 *)
-      else if negb proof_ok then Err                        (* 1032 VerifySectorRootsProof *)
-      else if negb (sig_ok v') then Err                     (* 1037 *)
+      else if negb dec then Err                             (* 1032 *)
+      else if negb (nroots =? length) then Err              (* 1034 fix 84b7403 *)
+      else if negb proof_ok then Err                        (* 1036 VerifySectorRootsProof *)
+      else if negb (sig_ok v') then Err                     (* 1041 host signature *)
       else Ok (v', u)
   end.
 
-(** RPCAppendSectors, rpc.go:683-749 *)
+(** RPCAppendSectors, rpc.go:666-727 *)
 Definition append_decide {R} (v : view R) (p : prices) (k : N) (dec1 : bool) (naccepted ntrue : N)
     (newroot : R) (proof_ok dec3 : bool) (sig_ok : view R → bool) : result (view R * usage) :=
-  if negb dec1 then Err                                     (* 702 *)
-  else if negb (naccepted =? k) then Err                    (* 704 len(resp.Accepted) != len(roots) *)
-  else if negb proof_ok then Err                            (* 714 VerifyAppendSectorsProof *)
-  else match revise_append v p newroot ntrue with           (* 718 *)
+  if negb dec1 then Err                                     (* 685 *)
+  else if negb (naccepted =? k) then Err                    (* 687 len(resp.Accepted) != len(roots) *)
+  else if negb proof_ok then Err                            (* 697 VerifyAppendSectorsProof *)
+  else match revise_append v p newroot ntrue with           (* 701 ReviseForAppendSectors *)
        | None => Err
        | Some (v', u) =>
-         if negb dec3 then Err                              (* 733 *)
-         else if negb (sig_ok v') then Err                  (* 735 *)
+         if negb dec3 then Err                              (* 716 *)
+         else if negb (sig_ok v') then Err                  (* 718 host signature *)
          else Ok (v', u)
        end.
 
-(** the normalisation of RPCFreeSectors, rpc.go:600-604: sort descending, Compact *)
+(** the normalisation of RPCFreeSectors, rpc.go:598-602: sort descending, Compact *)
 Fixpoint insert_desc (x : N) (l : list N) : list N :=
   match l with
   | [] => [x]
@@ -173,59 +173,59 @@ Fixpoint insert_desc (x : N) (l : list N) : list N :=
   end.
 Definition normalize (l : list N) : list N := foldr insert_desc [] l.
 
-(** RPCFreeSectors, rpc.go:593-680. [idxs] is the normalised list. *)
+(** RPCFreeSectors, rpc.go:592-663. [idxs] is the normalised list. *)
 Definition free_decide {R} (v : view R) (p : prices) (idxs : list N) (dec1 : bool)
     (newroot : R) (proof_ok dec3 : bool) (sig_ok : view R → bool) : result (view R * usage) :=
   let n := v_filesize v / sector_size in
-  if match idxs with i :: _ => n <=? i | [] => false end then Err   (* 607 fix 00e2f00 *)
+  if match idxs with i :: _ => n <=? i | [] => false end then Err   (* 605 fix 00e2f00 *)
   else if negb dec1 then Err                                (* 628 *)
   else if negb proof_ok then Err                            (* 630 VerifyFreeSectorsProof *)
-  else match revise_free v p newroot (len idxs) with        (* 634 *)
+  else match revise_free v p newroot (len idxs) with        (* 634 ReviseForFreeSectors *)
        | None => Err
        | Some (v', u) =>
          if negb dec3 then Err                              (* 650 *)
-         else if negb (sig_ok v') then Err                  (* 655 *)
+         else if negb (sig_ok v') then Err                  (* 655 host signature *)
          else Ok (v', u)
        end.
 
-(** RPCFundAccounts, rpc.go:752-806 *)
+(** RPCFundAccounts, rpc.go:730-778 *)
 Definition fund_decide {R} (v : view R) (amounts : list N) (accts_ok dec : bool) (nbalances : N)
     (sig_ok : view R → bool) : result (view R * usage) :=
-  match revise_fund v (sum_N amounts) with                  (* 757 *)
+  match revise_fund v (sum_N amounts) with                  (* 735 ReviseForFundAccounts *)
   | None => Err
   | Some (v', u) =>
-    if len amounts =? 0 then Err                            (* 770 req.Validate *)
+    if len amounts =? 0 then Err                            (* 748 req.Validate *)
     else if max_account_batch <? len amounts then Err
     else if negb accts_ok then Err
     else if existsb (N.eqb 0) amounts then Err
-    else if negb dec then Err                               (* 775 *)
-    else if negb (nbalances =? len amounts) then Err        (* 780 *)
-    else if negb (sig_ok v') then Err                       (* 782 *)
+    else if negb dec then Err                               (* 753 *)
+    else if negb (nbalances =? len amounts) then Err        (* 758 *)
+    else if negb (sig_ok v') then Err                       (* 760 host signature *)
     else Ok (v', u)
   end.
 
-(** RPCReplenishAccounts, rpc.go:809-892. The zero-cost branch returns the
+(** RPCReplenishAccounts, rpc.go:781-858. The zero-cost branch returns the
     caller's revision unchanged ([None] as the revised view). *)
 Definition replenish_decide {R} (v : view R) (naccounts target : N) (dec1 : bool) (deposits : list N)
     (dec3 : bool) (sig_ok : view R → bool) : result (option (view R) * usage) :=
-  if naccounts =? 0 then Err                                (* 818 req.Validate *)
+  if naccounts =? 0 then Err                                (* 790 req.Validate *)
   else if max_account_batch <? naccounts then Err
   else if target =? 0 then Err
-  else if negb dec1 then Err                                (* 835 *)
-  else if negb (len deposits =? naccounts) then Err         (* 837 fix ae0d4c7 *)
-  else if existsb (fun d => target <? d) deposits then Err  (* 841-845 *)
+  else if negb dec1 then Err                                (* 807 *)
+  else if negb (len deposits =? naccounts) then Err         (* 809 fix ae0d4c7 *)
+  else if existsb (fun d => target <? d) deposits then Err  (* 813-817 *)
   else let total := sum_N deposits in
-    if total =? 0 then Ok (None, usage0)                    (* 848-854 *)
-    else if target * naccounts <? total then Err            (* 855 *)
-    else match revise_fund v total with                     (* 859 ReviseForReplenish *)
+    if total =? 0 then Ok (None, usage0)                    (* 819-825 *)
+    else if target * naccounts <? total then Err            (* 826 *)
+    else match revise_fund v total with                     (* 830 ReviseForReplenish *)
          | None => Err
          | Some (v', u) =>
-           if negb dec3 then Err                            (* 876 *)
-           else if negb (sig_ok v') then Err                (* 878 *)
+           if negb dec3 then Err                            (* 846 *)
+           else if negb (sig_ok v') then Err                (* 848 host signature *)
            else Ok (Some v', u)
          end.
 
-(** RPCLatestRevision (rpc.go:997) and RPCSettings (rpc.go:460): whatever decodes is returned. *)
+(** RPCLatestRevision (rpc.go:1003) and RPCSettings (rpc.go:462): whatever decodes is returned. *)
 Definition pass_decide (dec : bool) : result unit := if dec then Ok () else Err.
 
 (** ** Layer 2: symbolic terms (DESIGN 3.3) *)
@@ -330,7 +330,7 @@ Definition wp_length (p : write_params) : N := leaf_size * len (wp_data p) + wp_
 (** the sector the host must store: the data padded with zero leaves *)
 Definition padded (data : list leaf) : list leaf :=
   data ++ replicate (N.to_nat leaves_per_sector - length data) 0.
-Definition local_root (data : list leaf) : sroot := SR (HL <$> padded data).   (* 543-551 ReadSectorRoot *)
+Definition local_root (data : list leaf) : sroot := SR (HL <$> padded data).   (* 543-553 ReadSectorRoot *)
 
 Definition client_write (p : write_params) (r : option sroot) : result write_result :=
   let '(dec, eq, root) := match r with
@@ -375,7 +375,7 @@ Definition client_roots (c : contract) (p : prices) (auth : bool) (offset length
     end
   end.
 
-(** RPCAppendSectors: [pick] is the loop of rpc.go:708-712 *)
+(** RPCAppendSectors: [pick] is the loop of rpc.go:690-695 *)
 Fixpoint pick {A} (roots : list A) (accepted : list bool) : list A :=
   match roots, accepted with
   | r :: rs, a :: acs => if a then r :: pick rs acs else pick rs acs
@@ -443,7 +443,7 @@ Definition client_replenish (c : contract) (accounts : list N) (target : N) (r1 
     let hs := default (SigX 0) r3 in
     match replenish_decide (c_view c) na target true (deposits.*2) (bool_decide (is_Some r3)) (fun v' => host_signed c v' hs) with
     | Ok (Some v', u) => Ok (signed_result c v' hs u, deposits)
-    | Ok (None, u) => Ok (mk_rev_result (c_view c) (c_rsig c) (c_hsig c) u, deposits)   (* 850: the caller's revision *)
+    | Ok (None, u) => Ok (mk_rev_result (c_view c) (c_rsig c) (c_hsig c) u, deposits)   (* 822: the caller's revision *)
     | Err => Err
     end
   end.
